@@ -41,6 +41,7 @@ type whoisSpec struct {
 	Login int     `json:"login,omitempty"` // 0 = empty login name, k = user k
 	Bare  capSpec `json:"bare"`
 	HTTPS capSpec `json:"https"`
+	Decoy bool    `json:"decoy,omitempty"` // the answer also carries fully permissive grants under similar-looking capability names
 }
 
 type reqSpec struct {
@@ -154,6 +155,13 @@ func mkWhoIs(w whoisSpec) (*apitype.WhoIsResponse, error) {
 	}
 	if raw, ok := capRaw(w.HTTPS); ok {
 		cm[capHTTPS] = raw
+	}
+	if w.Decoy {
+		// grants of OTHER applications whose capability names merely end like setec's: they grant nothing here
+		full := tailcfg.RawMessage(`{"action":["get","info","put","activate","delete"],"secret":["*"]}`)
+		cm["staging.tailscale.com/cap/secrets"] = []tailcfg.RawMessage{full}
+		cm["https://example.com/tailscale.com/cap/secrets"] = []tailcfg.RawMessage{full}
+		cm["tailscale.com/cap/secrets-admin"] = []tailcfg.RawMessage{full}
 	}
 	return &apitype.WhoIsResponse{Node: node, UserProfile: up, CapMap: cm}, nil
 }
@@ -579,6 +587,7 @@ func newGenState(r *rand.Rand) *genState {
 			w = whoisSpec{Tags: 3}
 		}
 		w.Bare, w.HTTPS = genGrants(r)
+		w.Decoy = r.IntN(2) == 0
 		g.personas = append(g.personas, w)
 	}
 	return g
@@ -614,7 +623,7 @@ func genReq(r *rand.Rand, last []secDump, g *genState) reqSpec {
 			rq.Hdr = []string{"", "other", "SETEC", "setec "}[r.IntN(4)]
 		case 3:
 			if persona < 0 {
-				rq.WhoIs = whoisSpec{Fail: r.IntN(4) == 0, Tags: r.IntN(3), Login: r.IntN(3), Bare: genCap(r), HTTPS: genCap(r)}
+				rq.WhoIs = whoisSpec{Fail: r.IntN(4) == 0, Tags: r.IntN(3), Login: r.IntN(3), Bare: genCap(r), HTTPS: genCap(r), Decoy: r.IntN(3) == 0}
 			}
 		case 4:
 			rq.BodyKind = []string{"extra", "null", "truncated", "wrongtype", "range", "empty", "nonjson", "number", "sparse", "sparse"}[r.IntN(10)]
